@@ -220,9 +220,9 @@ def dwarf_world(rng, arch, nmods=3, nf=6, nprobes=60, policy="may", with_iter=Fa
     for i in range(nmods):
         base_svma = rng.choice([0, 0, 0x100000000, 0x400000])
         base_avma = 0x10000 + 0x40000 * i + rng.choice([0, 0x1000])
-        fdes = rand_fdes(rng, arch, rng.range(1, nf), base_svma, 0x1000, random_rows)
-        pres = ["hdr", "eh", "debug"][i % 3] if i < 3 else rng.choice(["hdr", "eh", "debug"])
-        hi = max(f["start"] + f["len"] for f in fdes) - base_svma + 0x100
+        fdes = rand_fdes(rng, arch, 0 if rng.chance(1, 8) else rng.range(1, nf), base_svma, 0x1000, random_rows)
+        pres = rng.choice(["hdr", "eh", "debug"])
+        hi = max([f["start"] + f["len"] for f in fdes] + [base_svma + 0x1000]) - base_svma + 0x100
         start = base_avma + rng.choice([0, 0, 0x800])
         end = base_avma + hi
         s.module_dwarf("M%d" % i, start, end, base_avma, base_svma, pres, fdes, rng, shuffle=rng.chance(1, 2),
